@@ -55,8 +55,11 @@ type baseTrafficShapingController struct {
 }
 
 func newBaseTrafficShapingControllerWithMetric(r *Rule, metric *ParamsMetric) *baseTrafficShapingController {
-	if r.SpecificItems == nil {
-		r.SpecificItems = make(map[interface{}]int64)
+	// The rule object belongs to the caller and is also kept by the rule manager to detect identical
+	// reloads, so a nil SpecificItems is replaced in the controller only, not in the rule.
+	specificItems := r.SpecificItems
+	if specificItems == nil {
+		specificItems = make(map[interface{}]int64)
 	}
 	return &baseTrafficShapingController{
 		r:             r,
@@ -65,7 +68,7 @@ func newBaseTrafficShapingControllerWithMetric(r *Rule, metric *ParamsMetric) *b
 		paramIndex:    r.ParamIndex,
 		paramKey:      r.ParamKey,
 		threshold:     r.Threshold,
-		specificItems: r.SpecificItems,
+		specificItems: specificItems,
 		durationInSec: r.DurationInSec,
 		metric:        metric,
 	}
